@@ -21,7 +21,7 @@ def corpus():
         mk(["D0", "S*", "h", "t200"], "h", "last handle dropped while idle", {}),
         mk(["D0", "G:" + hexs(b"ACK [5@0] {} nope\n"), "c1:" + e("a"), "t200", "e", "t200"], "ack", "server answers idle with an error", {1: ("c", [e("a")])}),
         mk(["D0", "c1:" + e("a"), "G:" + hexs(b"foo\n"), "c2:" + e("b"), "t200", "e", "t200"], "invalid", "malformed reply to noidle", {1: ("c", [e("a")]), 2: ("c", [e("b")])}),
-        mk(["D0", "c1:" + e("a"), "S*", "D0", "S*", "G:" + hexs(b"foo\n"), "c2:" + e("b"), "c3:" + e("c"), "t50", "t200", "e", "t200"], "invalid", "malformed reply to the request: later requests still resolve", {1: ("c", [e("a")]), 2: ("c", [e("b")]), 3: ("c", [e("c")])}),
+        mk(["D0", "c1:" + e("a"), "S*", "D0", "S*", "G:" + hexs(b"foo\n"), "c2:" + e("b"), "c3:" + e("c"), "t50", "t200", "c4:" + e("d"), "t200", "t200"], "invalid", "malformed reply to the request: queued and later requests still resolve, no end of stream needed", {1: ("c", [e("a")]), 2: ("c", [e("b")]), 3: ("c", [e("c")]), 4: ("c", [e("d")])}),
     ]
 
 
@@ -53,7 +53,11 @@ def gen(ctx):
                 labels.append("t" + str(rng.choice([50, 100, 150])))
             else:
                 labels.append(rng.choice(["S*", "D0", "D2"]))
-        labels += ["S*", "D0", "t200", "S*", "D0", "e", "t200", "t200"]
+        # malformed data and failing reads end the connection by themselves: no end of stream needed for everything to resolve
+        if kind in ("invalid", "r") and rng.random() < 0.7:
+            labels += ["t200", "t200", "t200"]
+        else:
+            labels += ["S*", "D0", "t200", "S*", "D0", "e", "t200", "t200"]
         info["fault"] = kind
         items.append((L.Sched(labels=labels, note="random + " + kind), info))
     return items
